@@ -52,7 +52,7 @@ func (c *c14Oracle) Check(w *World, o *Obs) []Violation {
 		u := w.idpUser(st)
 		provider := strings.ToLower(st.str("provider"))
 		row := o.RowsAfter[uid]
-		if st.str("code") != "fresh" {
+		if !o.CodeUnused {
 			out = append(out, viol("C14", "login_without_fresh_code", st.Kind, o, fmt.Sprintf("callback logged in %q with code class %q", uid, st.str("code"))))
 		} else if row == nil || row.OAuth2Provider != provider || row.OAuth2UID != u.UID {
 			got := "no row"
